@@ -725,6 +725,12 @@ func runC12(c *CaseCtx) (res CaseResult) {
 		convT = s.Target.In[0].Type
 	}
 	refConv := DoConvert(w, types[convT], fullWith(refOpts, 900002))
+	// Convert's outcome is only compared where it is a singleton: the bare
+	// type is underivable, or derivable with the converter set in C05 scope
+	cs := s
+	cs.Target = FuncSpec{In: []Label{{Type: convT}}, InForm: FormPos, OutForm: FormPos}
+	ccf := factsOf(&cs)
+	convStable := !ccf.fMay.AllOK || inScopeC05(&cs, &ccf) != ""
 	// the inputs given to this Redefine are baked into the shared redefined
 	// function, hence shared constants (owner -1)
 	refRedef := DoRedefine(w, t.Func, fullWith(refOpts, -1))
@@ -837,7 +843,9 @@ func runC12(c *CaseCtx) (res CaseResult) {
 		case "call":
 			ref = refCall.Class
 		case "convert":
-			ref = refConv.Class
+			if convStable {
+				ref = refConv.Class
+			}
 		case "call-redefined":
 			if refRF.Class == ClsOK {
 				ref = ClsOK
